@@ -209,7 +209,8 @@ class State:
         self.ghost = {}
         self.path = []  # human-readable branch decisions
         self.handlers = []  # stack of active try contexts is kept in the executor, not here
-        self.allocs = {}  # id of an allocation constant -> True (distinct from each other and from every input)
+        self.allocs = {}  # id of an allocation constant -> its ordinal among this activation's allocations
+        self.before = {}  # id of a term -> n: the object existed before this activation's n-th allocation (spec-supplied, with the matching assumption)
         self.olds = set()  # ids of input constants (objects that existed before the unit started)
 
     def copy(self):
@@ -224,6 +225,7 @@ class State:
         s.path = list(self.path)
         s.handlers = list(self.handlers)
         s.allocs = dict(self.allocs)
+        s.before = dict(self.before)
         s.olds = set(self.olds)
         return s
 
@@ -241,7 +243,16 @@ class State:
             return True
         if fb and (ia in self.olds or (z3.is_int_value(a) and a.as_long() <= 2)):
             return True
+        if fa and ib in self.before and self.allocs[ia] >= self.before[ib]:
+            return True
+        if fb and ia in self.before and self.allocs[ib] >= self.before[ia]:
+            return True
         return False
+
+    def mark_before(self, term, n, bound):
+        """`term` denotes an object that existed before this activation's n-th allocation (whose ref is >= bound)."""
+        self.assume(term < bound)
+        self.before[term.get_id()] = n
 
     # heap ---------------------------------------------------------------------------------------
     def field(self, name):
@@ -275,5 +286,5 @@ class State:
         r = fresh(prefix)
         self.assume(r == self.ctr, TY(r) == ty)
         self.ctr = r + 1
-        self.allocs[r.get_id()] = True
+        self.allocs[r.get_id()] = len(self.allocs)
         return r
